@@ -26,7 +26,7 @@ parse_encW parse_sound wellformed_iff skip_agrees_parse skip_ok_ends_at_parse"""
 PACKAGES = ["hcore"]
 
 NOALLOC_DIR = os.path.join(runner.HARNESS, "noalloc")
-NOALLOC_BIN = os.path.join(NOALLOC_DIR, "target", "release", "hnoalloc")
+NOALLOC_BIN = os.path.join(runner.target_dir(os.path.join(NOALLOC_DIR, "target")), "release", "hnoalloc")
 
 # depth of the chain family (c); see ASSUMPTIONS if ever lowered
 CHAIN_DEPTHS = {"quick": (10, 100, 1000), "thorough": (10, 100, 1000, 10000)}
@@ -740,7 +740,8 @@ class _NoallocStream(Stream):
 def prepare(seed, tier):
     """build the standalone no-alloc harness (offline); abort loudly if it does not build."""
     with runner.Lock("cargo.lock"):
-        rc, out = runner.sh(["cargo", "build", "--release", "--offline"], cwd=NOALLOC_DIR, timeout=3600)
+        rc, out = runner.sh(["cargo", "build", "--release", "--offline"] + runner.cargo_extra_args(os.path.join(NOALLOC_DIR, "target")),
+                            cwd=NOALLOC_DIR, timeout=3600)
     if rc != 0 or not os.path.exists(NOALLOC_BIN):
         runner.log(out[-6000:])
         raise RuntimeError("C06: the no-alloc harness (/verif/harness/noalloc, minicbor without features) does not build: "
